@@ -277,7 +277,7 @@ func checkLeftNesting(p *Prog, r *Report, f *ssa.Function, name string) {
 				continue
 			}
 			found = true
-			if !strings.HasSuffix(fld, "1") {
+			if !isFirstOperandField(fa.X.Type(), fld) {
 				ok = false
 				r.Bad(name+":nesting", p.InstrPos(in), "the previous sub-expression becomes operand %s of the new node (must be the first operand for left association)", fld)
 			}
@@ -300,10 +300,33 @@ type evalNode struct {
 }
 
 var evalNodes = []evalNode{
-	{"Expression", "ParseExpression", "expr1", "expr2"},
-	{"relationalExpression", "parseRelationalExpression", "expr1", "expr2"},
-	{"simpleExpression", "parseSimpleExpression", "term1", "term2"},
-	{"term", "parseTerm", "factor1", "factor2"},
+	{"Expression", "ParseExpression", "", ""},
+	{"relationalExpression", "parseRelationalExpression", "", ""},
+	{"simpleExpression", "parseSimpleExpression", "", ""},
+	{"term", "parseTerm", "", ""},
+}
+
+// operandFields fills first/second with the first two IEvaluator-typed fields of the node struct (declaration order),
+// so that renaming the fields does not matter.
+func operandFields(p *Prog, en evalNode) evalNode {
+	n := p.Named(en.typ)
+	if n == nil {
+		return en
+	}
+	st, ok := n.Underlying().(*types.Struct)
+	if !ok {
+		return en
+	}
+	var names []string
+	for i := 0; i < st.NumFields(); i++ {
+		if nt, ok := st.Field(i).Type().(*types.Named); ok && nt.Obj().Name() == "IEvaluator" {
+			names = append(names, st.Field(i).Name())
+		}
+	}
+	if len(names) >= 2 {
+		en.first, en.second = names[0], names[1]
+	}
+	return en
 }
 
 // caseLabels finds comparisons of <node>.opToken.Val with string constants in f: label -> block taken when equal.
@@ -399,6 +422,7 @@ func ruleC07OpsCase(p *Prog, a *Anchors, r *Report, levels map[string]*gramLevel
 	r.Begin("R-C07-OPS", "parser/evaluator agreement: the operators a level can store in a node are exactly the case labels of that node's Evaluate", 4)
 	labelsOf := map[string]map[string]*ssa.BasicBlock{}
 	for _, en := range evalNodes {
+		en = operandFields(p, en)
 		f := p.Method(en.typ, "Evaluate")
 		gl := levels[en.parseFn]
 		if f == nil || gl == nil {
@@ -438,6 +462,7 @@ func ruleC07OpsCase(p *Prog, a *Anchors, r *Report, levels map[string]*gramLevel
 
 	r.Begin("R-C07-CASE", "inside `case \"<op>\"` every numeric Go operation is the one the label names, with the first operand on the left; time comparisons use the method pair the label names", 10)
 	for _, en := range evalNodes {
+		en = operandFields(p, en)
 		f := p.Method(en.typ, "Evaluate")
 		labels := labelsOf[en.typ]
 		if f == nil || labels == nil {
@@ -580,7 +605,7 @@ func ruleC07OpsCase(p *Prog, a *Anchors, r *Report, levels map[string]*gramLevel
 	}
 	// power
 	if f := p.Method("power", "Evaluate"); f != nil {
-		en := evalNode{"power", "parsePower", "power1", "power2"}
+		en := operandFields(p, evalNode{"power", "parsePower", "", ""})
 		found := false
 		for _, b := range f.Blocks {
 			for _, in := range b.Instrs {
@@ -615,7 +640,7 @@ func ruleC07ShortCircuit(p *Prog, a *Anchors, r *Report) {
 		r.Unk("anchor", "-", "anchor unresolved: (*Expression).Evaluate")
 		return
 	}
-	en := evalNodes[0]
+	en := operandFields(p, evalNodes[0])
 	labels := caseLabels(p, f)
 	n := 0
 	for _, b := range f.Blocks {
@@ -1049,4 +1074,22 @@ func ruleC07Lex(p *Prog, a *Anchors, r *Report) {
 			r.OK("stateNumber:class", p.Pos(sn.Pos()), "number tokens consume only tokenDigits")
 		}
 	}
+}
+
+// isFirstOperandField: fld is the first IEvaluator-typed field of the struct T points to.
+func isFirstOperandField(T types.Type, fld string) bool {
+	n := structOf(T)
+	if n == nil {
+		return false
+	}
+	st, ok := n.Underlying().(*types.Struct)
+	if !ok {
+		return false
+	}
+	for i := 0; i < st.NumFields(); i++ {
+		if nt, ok := st.Field(i).Type().(*types.Named); ok && nt.Obj().Name() == "IEvaluator" {
+			return st.Field(i).Name() == fld
+		}
+	}
+	return false
 }
